@@ -506,10 +506,27 @@ static void sub_scale() {
 // block B (tridiagonal Hermitian pd for CG) with non-zero subdiagonal, m in {1,2,3}, placed on random indices, and an integer diagonally dominant
 // remainder.  The initial residual is c e_first (c a power of two times a unit), so the Arnoldi / Lanczos vectors are exact unit vectors, every vector
 // stays exactly inside the block and the (m+1)-th Krylov vector is an exact floating-point zero (H(m+1,m) == 0).  Preconditioner: identity, or the exact
-// inverse on the block (blocks are drawn until B^-1 is exactly representable).  Every method must return the solution within m iterations (+L-1 for
+// inverse on the block (for which blocks are drawn until B^-1 is exactly representable).  Every method must return the solution within m iterations (+L-1 for
 // BiCGStab(L), + ceil(m/s) for IDR(s); Richardson: one step with the exact preconditioner); a breakdown exception is acceptable only if the iterate it
 // leaves behind already satisfies the tolerance.
 //---------------------------------------------------------------------------
+// smallest |cos| of the two BiCG quotients (rho = (r~, Op^j r_j), sigma = (r~, Op^(j+1) u_j)) over the first `steps` BiCG steps of a BiCGStab(L) cycle, long double:
+// an exact 0 is a *mathematical* (serious Lanczos) breakdown of the BiCG process with shadow vector r~ = r0, e.g. when r_j is an eigenvector orthogonal to r~
+static R bicg_min_cos(const Mat &A, const Mat &P, const Vec &f, const Vec &x0, int steps, bool left) {
+    int n = (int)f.size(); auto Op = [&](const Vec &v) { return left ? Vec(P * (A * v)) : Vec(A * (P * v)); };
+    auto cosang = [](L ip, const Vec &a, const Vec &b) { R d = a.norm() * b.norm(); return d > 0 ? (R)std::abs(ip) / d : (R)0; };
+    Vec b = left ? Vec(P * (f - A * x0)) : Vec(f - A * x0); std::vector<Vec> Rv(steps + 1, Vec::Zero(n)), U(steps + 1, Vec::Zero(n)); Rv[0] = b; Vec rt = b; L alpha = 0, rho0 = 1; R mc = 1, r0n = b.norm();
+    for (int j = 0; j < steps; ++j) {
+        if (!(Rv[0].norm() > 1e-14L * r0n)) break;                           // converged: the solver leaves the cycle here
+        L rho1 = rt.dot(Rv[j]); mc = std::min(mc, cosang(rho1, rt, Rv[j])); if (!(mc > 0)) return 0;
+        L beta = alpha * (rho1 / rho0); rho0 = rho1;
+        for (int i = 0; i <= j; ++i) { Vec t = Rv[i] - beta * U[i]; U[i] = t; }
+        U[j + 1] = Op(U[j]); L sigma = rt.dot(U[j + 1]); mc = std::min(mc, cosang(sigma, rt, U[j + 1])); if (!(mc > 0)) return 0; alpha = rho1 / sigma;
+        for (int i = 0; i <= j; ++i) Rv[i] -= alpha * U[i + 1];
+        Rv[j + 1] = Op(Rv[j]);
+    }
+    return mc;
+}
 static L gint(Rng &r, int lo, int hi, bool nz = false) { for (;;) { R a = (R)r.range(lo, hi), b = 0;
 #ifdef C05_COMPLEX
         b = (R)r.range(lo, hi);
@@ -530,11 +547,16 @@ static void sub_invariant() {
                     Bm(i, i + 1) = o;
 #endif
                 } Eigen::LLT<Mat> llt(Bm); if (llt.info() != Eigen::Success) continue; }
-            else { for (int i = 0; i < m; ++i) for (int j = 0; j < m; ++j) if (j + 1 >= i) Bm(i, j) = gint(r, -3, 3); for (int i = 0; i + 1 < m; ++i) Bm(i + 1, i) = gint(r, -3, 3, true); }
+            else { // upper Hessenberg, positive diagonal, non-zero sub- and super-diagonal, positive definite Hermitian part: the exact structure must not
+                   // produce the *mathematical* breakdowns of the BiCG family (omega = (As,s)/(As,As) = 0 or (r~, A p) = 0 happen exactly when a
+                   // diagonal / super-diagonal entry is 0; on the unchanged tree bicgstab then returns NaN, bicgstabl throws its documented exception)
+                for (int i = 0; i < m; ++i) for (int j = 0; j < m; ++j) if (j + 1 >= i) Bm(i, j) = i == j ? mkL((R)r.range(2, 4), 0) : gint(r, -1, 1, j == i + 1);
+                for (int i = 0; i + 1 < m; ++i) Bm(i + 1, i) = gint(r, -1, 1, true);
+                Mat Hp = (Bm + Bm.adjoint()) * mkL(0.5, 0); Eigen::LLT<Mat> llt(Hp); if (llt.info() != Eigen::Success) continue; }
             Eigen::FullPivLU<Mat> lu(Bm); if (!lu.isInvertible()) continue; Bi = lu.inverse();
-            // exact inverse wanted: round to multiples of 1/8 and verify B Bi == I exactly
-            for (int i = 0; i < m; ++i) for (int j = 0; j < m; ++j) { std::complex<R> z = Bi(i, j); Bi(i, j) = mkL(std::round(z.real() * 8) / 8, std::round(z.imag() * 8) / 8); }
-            Mat T = Bm * Bi - Mat::Identity(m, m); if (T.cwiseAbs().maxCoeff() != 0) continue;
+            if (exactP) {   // exact inverse wanted: round to multiples of 1/64 and verify B Bi == I exactly
+                for (int i = 0; i < m; ++i) for (int j = 0; j < m; ++j) { std::complex<R> z = Bi(i, j); Bi(i, j) = mkL(std::round(z.real() * 64) / 64, std::round(z.imag() * 64) / 64); }
+                Mat T = Bm * Bi - Mat::Identity(m, m); if (T.cwiseAbs().maxCoeff() != 0) continue; }
             if (Bm.cwiseAbs().maxCoeff() * Bi.cwiseAbs().maxCoeff() > 60) continue;           // keep the block well conditioned
             ok = true;
         }
@@ -561,12 +583,15 @@ static void sub_invariant() {
         }
         Vec g = Vec::Zero(n); g[bi[0]] = cc; s.f = s.A * s.x0 + g; s.fv.resize(n); for (int i = 0; i < n; ++i) { s.fv[i] = roundS(s.f[i]); if (widen(s.fv[i]) != s.f[i]) { fprintf(stderr, "c05 invariant: inexact rhs\n"); exit(3); } }
         Vec xb = Vec::Zero(n); { Vec gb(m); gb.setZero(); gb[0] = cc; Vec yb = Bi * gb; for (int i = 0; i < m; ++i) xb[bi[i]] = yb[i]; } s.xs = s.x0 + xb;
-        { Vec chk = s.A * s.xs - s.f; if (chk.cwiseAbs().maxCoeff() != 0) { fprintf(stderr, "c05 invariant: reference solution not exact\n"); exit(3); } }
+        { Vec chk = s.A * s.xs - s.f; if (!(chk.cwiseAbs().maxCoeff() <= 1e-17L * (1 + s.f.cwiseAbs().maxCoeff()))) { fprintf(stderr, "c05 invariant: reference solution inaccurate\n"); exit(3); } }
         std::vector<ptrdiff_t> ptr(1, 0), col; std::vector<S> val;
         for (int i = 0; i < n; ++i) { for (int j = 0; j < n; ++j) { col.push_back(j); val.push_back(roundS(s.A(i, j))); } ptr.push_back((ptrdiff_t)col.size()); }
         s.prec.n = n; s.prec.P = s.P; s.prec.A = std::make_shared<M>(std::make_tuple((size_t)n, ptr, col, val));
+        if (vf::opt_int("debug", 0)) { std::ostringstream os; os << Bm; fprintf(stderr, "invariant idx=%ld m=%d block=\n%s\n", idx, m, os.str().c_str()); }
         Case c("invariant", idx, sysdesc(s).n("m", m)); R nf = s.f.norm(), sc = std::max<R>(1, s.xs.cwiseAbs().maxCoeff()); size_t mm = exactP ? 1 : (size_t)m;   // with the exact block inverse P A = I on the block
-        auto verdict = [&](const std::string &name, const Run &o, size_t bud) {
+        auto verdict = [&](const std::string &name, const Run &o, size_t bud, int bicg_steps = 0, bool left = false) {
+            // a documented BiCG breakdown exception is not held against the solver when the BiCG process itself breaks down in exact arithmetic (reference)
+            if (o.threw && bicg_steps > 0 && bicg_min_cos(s.A, s.P, s.f, s.x0, bicg_steps, left) < 1e-12L) { vf::obs_sum("invariant_mathematical_bicg_breakdown_confirmed_by_reference"); return; }
             Vec xk = to_vec(o.x); double tr = (double)((s.f - s.A * xk).norm() / nf); double err = (double)((xk - s.xs).cwiseAbs().maxCoeff() / sc);
             if (o.threw) { c.check(allfinite(o.x) && tr < 1e-8, name + ":exception-before-convergence", "breakdown exception although the iterate left behind does not satisfy the tolerance: " + o.what, J().n("true", tr).n("m", m)); return; }
             c.check(allfinite(o.x) && std::isfinite(o.res) && tr < 1e-7 && err < 1e-7 && o.iters <= bud, name + ":invariant-subspace-not-exploited", "initial residual spans an exactly invariant subspace of dimension m: the method did not return the solution within its budget",
@@ -577,8 +602,8 @@ static void sub_invariant() {
         if (spd) { amgcl::solver::cg<B>::params p; p.maxiter = MAXIT; amgcl::solver::cg<B> Sv(n, p); verdict("cg", run(Sv, s), mm); }
         for (int left = 0; left < 2; ++left) { std::string sd = left ? "-left" : ""; auto ps = left ? side::left : side::right;
             { amgcl::solver::bicgstab<B>::params p; p.maxiter = MAXIT; p.pside = ps; amgcl::solver::bicgstab<B> Sv(n, p); verdict("bicgstab" + sd, run(Sv, s), mm); }
-            for (int Lp : {1, 2, 4}) { amgcl::solver::bicgstabl<B>::params p; p.L = Lp; p.maxiter = MAXIT; p.pside = ps; amgcl::solver::bicgstabl<B> Sv(n, p); verdict("bicgstabl(L=" + std::to_string(Lp) + ")" + sd, run(Sv, s), mm + Lp - 1); }
-            for (int Mr : {2, 30}) { amgcl::solver::gmres<B>::params p; p.M = Mr; p.maxiter = MAXIT; p.pside = ps; amgcl::solver::gmres<B> Sv(n, p); verdict("gmres(M=" + std::to_string(Mr) + ")" + sd, run(Sv, s), Mr >= (int)mm ? mm : MAXIT); }
+            for (int Lp : {1, 2, 4}) { amgcl::solver::bicgstabl<B>::params p; p.L = Lp; p.maxiter = MAXIT; p.pside = ps; amgcl::solver::bicgstabl<B> Sv(n, p); verdict("bicgstabl(L=" + std::to_string(Lp) + ")" + sd, run(Sv, s), mm + Lp - 1, Lp, left); }
+            for (int Mr : {2, 30}) { amgcl::solver::gmres<B>::params p; p.M = Mr; p.maxiter = MAXIT; p.pside = ps; amgcl::solver::gmres<B> Sv(n, p); if (Mr >= (int)mm) verdict("gmres(M=" + std::to_string(Mr) + ")" + sd, run(Sv, s), mm); }   // a restart shorter than m has no finite termination
             for (int Kr : {0, 2}) { amgcl::solver::lgmres<B>::params p; p.M = 4; p.K = Kr; p.maxiter = MAXIT; p.pside = ps; amgcl::solver::lgmres<B> Sv(n, p); verdict("lgmres(K=" + std::to_string(Kr) + ")" + sd, run(Sv, s), mm); }
         }
         { amgcl::solver::fgmres<B>::params p; p.M = 5; p.maxiter = MAXIT; amgcl::solver::fgmres<B> Sv(n, p); verdict("fgmres", run(Sv, s), mm); }
